@@ -138,43 +138,7 @@ def res_term(r, f=lambda x: x):
     return C('Err', r[1])
 
 
-# ---------------------------------------------------------------------------
-# Coq export with tags on CHOICE alternatives (own layer; the shared exporter has none)
-
-def coq_member(rt_of, m, numeric, tagged):
-    if m['opt'] is None:
-        o = C('Mandatory')
-    elif m['opt'] == 'optional':
-        o = C('Optional')
-    else:
-        o = C('Default', G.coq_value(rt_of, m['t'], O._default(rt_of, m, numeric)))
-    ty = coq_type(rt_of, m['t'], numeric)
-    if tagged and m.get('tag'):
-        cls, num, mode = m['tag']
-        ty = C('TTag', C('mkTag', C({'': 'Ctx', 'UNIVERSAL': 'Univ', 'APPLICATION': 'Appl', 'PRIVATE': 'Priv'}[cls]),
-                         num, mode == 'EXPLICIT'), ty)
-    return ((m['name'], ty), o)
-
-
-def coq_type(rt_of, t, numeric):
-    k = t['k']
-    if k in ('SEQUENCE', 'SET'):
-        ext = None
-        if t['ext'] is not None:
-            ext = C('Some', [((True, [coq_member(rt_of, m, numeric, False) for m in a['group']]) if 'group' in a
-                              else (False, [coq_member(rt_of, a['member'], numeric, False)])) for a in t['ext']])
-        return C('TSeq', k == 'SET', [coq_member(rt_of, m, numeric, k == 'SET') for m in t['root']], ext)
-    if k in ('SEQUENCE OF', 'SET OF'):
-        return C('TSeqOf', k == 'SET OF', coq_type(rt_of, t['elem'], numeric), G.coq_size(t['size']))
-    if k == 'CHOICE':
-        return C('TChoice', [coq_member(rt_of, m, numeric, True) for m in t['root']],
-                 None if t['ext'] is None else C('Some', [coq_member(rt_of, m, numeric, True) for m in t['ext']]))
-    return G.coq_type(rt_of, t, numeric)
-
-
-def coq_env(mod, numeric):
-    rt_of = G.make_resolver(mod)
-    return [(n, coq_type(rt_of, t, numeric)) for n, t in mod['types']]
+coq_type, coq_env = O.coq_type, O.coq_env
 
 
 # ---------------------------------------------------------------------------
@@ -587,6 +551,12 @@ def shard_body(cs, enc, spec, dec):
     lines.append('Eval vm_compute in mismatches2 opt_bytes_eqb (run_spec %d%%nat) spec_cases.' % O.FUEL)
     lines.append('Definition dec_cases : list (dec_case * result (value * Z)) := [%s].' % ';\n '.join(map(case, dec)))
     lines.append('Eval vm_compute in mismatches2 res_dec_eqb (run_dec %d%%nat) dec_cases.' % O.FUEL)
+    # the theorems' regions contain the cases the Python predicates let through
+    lines.append('Eval vm_compute in mismatches2 Bool.eqb (run_ok %d%%nat) '
+                 '(map (fun c => (fst c, true)) (filter (fun c => match snd c with Ok _ => true | Err _ => false end) enc_cases)).'
+                 % O.FUEL)
+    lines.append('Eval vm_compute in mismatches2 Bool.eqb (run_scope %d%%nat) (map (fun c => (fst c, true)) spec_cases).'
+                 % O.FUEL)
     return '\n'.join(lines) + '\n'
 
 
@@ -633,15 +603,22 @@ def run_coq(ctx, cs):
     with concurrent.futures.ThreadPoolExecutor(max_workers=8) as ex:
         for job, res in ex.map(work, jobs):
             _, enc, spec, dec = job
-            b_enc, b_spec, b_dec = res
+            b_enc, b_spec, b_dec, b_ok, b_scope = res
             bad += [('enc', enc[j]) for j in b_enc] + [('spec', spec[j]) for j in b_spec] + [('dec', dec[j]) for j in b_dec]
+            okenc = [c for c in enc if c[4].name == 'Ok']
+            bad += [('ok', okenc[j]) for j in b_ok] + [('scope', spec[j]) for j in b_scope]
     ctx.extra['shard_times'] = sorted(times)
     ctx.extra['agreement'] = {'encode_cases': ne, 'x696_cases': ns, 'decode_cases': nd, 'disagreements': len(bad)}
     shown = 0
     for kind, c in bad:
         meta = c[5]
-        model = explain(ctx, cs, kind, c) if shown < 8 else '(not evaluated)'
+        model = explain(ctx, cs, kind, c) if shown < 8 and kind in ('enc', 'spec', 'dec') else '(not evaluated)'
         shown += 1
+        if kind in ('ok', 'scope'):
+            what = 'the Python region predicate admits a case outside the Coq region %s: %s value %s' % (
+                'oer_ok' if kind == 'ok' else 'in_scope', meta['type'], meta['value'][:160])
+            report(ctx, what, dict(meta, kind='region-' + kind))
+            continue
         if kind == 'spec':
             what = 'X.696 model and library disagree on the encoding of %s value %s: library %s, X.696 %s' % (
                 meta['type'], meta['value'][:120], show(c[4]), fmt_model(model))
@@ -724,6 +701,20 @@ def run(ctx):
                 '0/1/127/128/255/256/65535/65536, 1..17 additions, 6..16 optionals, CHOICE tags up to 2^32); each case: '
                 'encode, X.696 model, decode(+tail), every/sampled strict prefix, mutated octets; distinct by (origin, type '
                 'shape, value class, numeric); non-trivial = type AST size >= 3 or boundary layer')
+    ctx.level = 'proof'
+    ctx.trusted_base += [
+        'Oer/X696.v is the author\'s formalisation of Rec. ITU-T X.696 written from memory (the text is not available '
+        'offline); pinned by the 41 vectors of Oer/X696Vectors.v (Overview-of-OER examples, literals of tests/test_oer.py)',
+        'the model abstracts the (value, number_of_bits) accumulators of oer.Encoder/Decoder to octet lists; '
+        'struct.pack, str.encode and bytes.decode are modelled (range check, strict UTF-8/ASCII), not verified',
+        'harness/gen_asn1.py + harness/codec_oer.py exporters (module text for the library, Coq terms for the models)',
+    ]
+    ctx.assumptions += [
+        'the model follows /repo with proposed_fixes/C06-*.diff applied; on a tree without them the three repaired '
+        'defects are reported as violations',
+        'theorems quantify over the universe of Syntax/Asn1.v restricted by the decidable regions oer_ok / in_scope; '
+        'REAL, time types, ANY, EXTERNAL and parameterisation are outside the universe',
+    ]
     ok = ctx.coq_props(extra_targets=['theories/Oer/OerCorr.vo', 'theories/Oer/X696Vectors.vo'])
     if ok:      # everything the case files import has just been built: do not take the build lock again
         ctx._built.add(tuple(sorted('theories/%s.vo' % i.replace('.', '/') for i in O.COQ_IMPORTS)))
@@ -739,7 +730,7 @@ def run(ctx):
     ctx.log('boundary layer done: %d evaluations' % ctx.evaluations)
     nmods = 45 if quick else 900
     for i in range(nmods):
-        opts = G.Opts(big=(not quick and i % 10 == 0), max_depth=rng.choice([2, 3]), n_types=rng.choice([2, 4]))
+        opts = G.Opts(max_depth=rng.choice([2, 3]), n_types=rng.choice([2, 4]))   # 64K lengths: boundary layer
         mod, text, gen = G.generate(rng, opts)
         numeric = rng.random() < .35
         collect_module(ctx, cs, mod, text, gen.gen_value, 2 if quick else 3, numeric, 'random',
@@ -753,7 +744,14 @@ def run(ctx):
 
 
 def open_theorems():
-    src = open(os.path.join(common.COQ, 'theories', 'Props', 'C06.v')).read()
+    """_partial theorems and OPEN comments of Props/C06.v and of the Oer development."""
+    import glob
     import re
-    return sorted(set(re.findall(r'\b(\w+_partial)\b', src))) + \
-        ['OPEN: ' + ' '.join(m.split())[:200] for m in re.findall(r'\(\*\s*OPEN:(.*?)\*\)', src, flags=re.S)]
+    out = []
+    for f in [os.path.join(common.COQ, 'theories', 'Props', 'C06.v')] + \
+            sorted(glob.glob(os.path.join(common.COQ, 'theories', 'Oer', '*.v'))):
+        src = open(f).read()
+        out += ['%s: %s' % (os.path.basename(f), n) for n in sorted(set(re.findall(r'(?:Theorem|Lemma)\s+(\w+_partial)\b', src)))]
+        out += ['%s: OPEN: %s' % (os.path.basename(f), ' '.join(m.split())[:240])
+                for m in re.findall(r'\(\*\s*OPEN:(.*?)\*\)', src, flags=re.S)]
+    return out
